@@ -54,8 +54,9 @@ CLAIMED["C12"] = (
 CLAIMED["C06"] = (
     "Coq proof by induction over the section list (scanner-state invariant), over lines/characters (splitlines, universal newlines), and over the routing fold (finite-map characterisation) + per-run tie of header regex / 40 names / required tags + vm_compute correspondence incl. real files read by path",
     "Theorems C06_frame_gen/C06_frame (each section's parser receives exactly the body lines between its braces), C06_split (LF = CRLF), C06_bom (BOM + CRLF by path = LF text), C06_route_fixed (Song -> metadata, SyncTrack -> sync, Events -> global events), "
+    "utf8_roundtrip/utf8_canonical (the modelled UTF-8 codec is a bijection between valid byte strings and texts of Unicode scalar values: overlong forms, surrogates, > U+10FFFF, stray and missing continuation bytes rejected), utf8_sig_bom/utf8_sig_nobom, C06_bom_bytes (a FILE, as bytes, with or without the mark, LF or CRLF, read by path = the LF text), utf8_error_kind (undecodable bytes are a ValueError), "
     "C06_route_tracks/C06_header (each of the 40 headers feeds the track stored under exactly that key and labelled with it), C06_route_ok, C06_perm (independence of section order, tracks as a finite map, logs as a multiset), C06_unknown/C06_unknown_chart (unknown sections reported once and ignored), C06_required (ValueError).",
-    MODEL_NOTE + REGEX_NOTE + " Partial: UTF-8 byte decoding by the codec is not modelled (the model starts at code points); it is exercised by the correspondence on real files.")
+    MODEL_NOTE + REGEX_NOTE + " The utf-8-sig decoding of the path entry point is a hand-written executable model of the codec (Base/Utf8.v, strict RFC 3629), tied to CPython by the correspondence on real files incl. undecodable ones; CPython's C implementation of the codec itself is trusted.")
 CLAIMED["C10"] = (
     "Coq proof: language inversion of the 24 reference field regexes, greedy-optional-quote + lazy-group extractor correctness, prefix argument for pairwise disjointness (all strings), permutation lemma + per-run tie (regexes, kinds, defaults, lookup order) + vm_compute correspondence",
     "Theorems C10_only (exact language of every field), C10_str_verbatim (one pair of quotes removed, inner text verbatim incl. quotes, '=', field names, blanks, non-ASCII), C10_int, C10_player2/C10_player2_capture, C10_disjoint (no string is claimed by two fields), C10_field/C10_foreign_line (a field's value depends only on its own accepted line), C10_perm (order independence), C10_defaults, C10_required (MissingRequiredField), C10_shape.",
